@@ -65,76 +65,9 @@ func lenDiff(d *state.IdentityStateDiff) int {
 func TestIdentityDiffReplay(t *testing.T) {
 	rapid.Check(t, func(t *rapid.T) {
 		reorgs, reorgAcrossUpdate := 0, 0
-		opt := sim.Options{MinActors: 4, MaxActors: 10, Replicas: 2, MaxReplicas: 4, Steps: 30, MaxTxPerStep: 6,
-			OnlyTypes: []types.TxType{types.OnlineStatusTx, types.OnlineStatusTx, types.OnlineStatusTx, types.DelegateTx, types.DelegateTx, types.UndelegateTx, types.KillTx, types.KillDelegatorTx,
-				types.KillInviteeTx, types.InviteTx, types.ActivationTx, types.SendTx, types.ReplenishStakeTx, types.SubmitAnswersHashTx, types.SubmitShortAnswersTx, types.SubmitLongAnswersTx, types.EvidenceTx}}
-		opt.Params = func(p *sim.Params) {
-			for i := range p.States {
-				if i%2 == 1 && p.States[i] == state.Undefined {
-					p.States[i] = state.Verified
-					p.Stakes[i] = sim.Dna(int64(20 + i))
-				}
-			}
-		}
-		opt.BetweenBlocks = func(h *sim.History) {
-			// reorganisation: every replica abandons its last k blocks (as the fork resolver does) and the
-			// history continues from there with different blocks
-			if len(h.Blocks) < 4 {
-				return
-			}
-			w := h.W
-			// an abandoned EMPTY block that carried an identity diff (status switches are applied by empty blocks
-			// too) is the rare shape: take the opportunity in half of the cases
-			k := 0
-			for j := 1; j <= 3; j++ {
-				b := h.Blocks[len(h.Blocks)-j]
-				if b.IsEmpty() && !w.Replicas[0].Chain.GetIdentityDiff(b.Height()).Empty() {
-					evid.Count("a.empty_block_with_identity_diff_near_head")
-					if rapid.Bool().Draw(t, "reorgOverEmptyDiffBlock") {
-						// deeper than the block itself, so that the transactions that caused the diff are abandoned too
-						// and the replacement block at that height may have no diff at all
-						k = j + rapid.IntRange(0, 4).Draw(t, "deeperBy")
-						if k > len(h.Blocks)-1 {
-							k = len(h.Blocks) - 1
-						}
-					}
-					break
-				}
-			}
-			if k == 0 {
-				if rapid.IntRange(0, 6).Draw(t, "reorg") != 0 {
-					return
-				}
-				k = rapid.IntRange(1, 3).Draw(t, "reorgDepth")
-			}
-			target := w.Replicas[0].Head().Height() - uint64(k)
-			for _, r := range w.Replicas {
-				if !r.AppState.State.HasVersion(target) || !r.AppState.IdentityState.HasVersion(target) {
-					return
-				}
-			}
-			across := false
-			for _, b := range h.Blocks[len(h.Blocks)-k:] {
-				if d := w.Replicas[0].Chain.GetIdentityDiff(b.Height()); !d.Empty() {
-					across = true
-					if b.IsEmpty() {
-						evid.Count("a.reorg_over_empty_block_with_identity_diff")
-					}
-				}
-			}
-			for _, r := range w.Replicas {
-				if _, err := r.Chain.ResetTo(target); err != nil {
-					t.Fatalf("ResetTo(%d) on %s: %v", target, r.Name, err)
-				}
-			}
-			h.Blocks = h.Blocks[:len(h.Blocks)-k]
-			h.Note("reorg")
-			reorgs++
-			if across {
-				reorgAcrossUpdate++
-				h.Note("reorgAcrossIdentityDiff")
-			}
-		}
+		opt := sim.Options{MinActors: 4, MaxActors: 10, Replicas: 2, MaxReplicas: 4, Steps: 30, MaxTxPerStep: 6, OnlyTypes: identityTxMix}
+		opt.Params = identityWorld
+		opt.BetweenBlocks = reorgHook(t, &reorgs, &reorgAcrossUpdate)
 		h := sim.RunHistory(t, opt)
 		evid.Eval()
 		r := h.W.Replicas[rapid.IntRange(0, len(h.W.Replicas)-1).Draw(t, "servingReplica")]
@@ -152,6 +85,82 @@ func TestIdentityDiffReplay(t *testing.T) {
 			evid.Sample("diff-replay", fmt.Sprintf("heights=%d nonEmptyDiffs=%d reorgs=%d acrossDiff=%d", r.Head().Height(), nonEmpty, reorgs, reorgAcrossUpdate))
 		}
 	})
+}
+
+// identityTxMix weights the histories of the diff-replay checks to identity events.
+var identityTxMix = []types.TxType{types.OnlineStatusTx, types.OnlineStatusTx, types.OnlineStatusTx, types.DelegateTx, types.DelegateTx, types.UndelegateTx, types.KillTx, types.KillDelegatorTx,
+	types.KillInviteeTx, types.InviteTx, types.ActivationTx, types.SendTx, types.ReplenishStakeTx, types.SubmitAnswersHashTx, types.SubmitShortAnswersTx, types.SubmitLongAnswersTx, types.EvidenceTx}
+
+// identityWorld makes every second actor a validated identity.
+func identityWorld(p *sim.Params) {
+	for i := range p.States {
+		if i%2 == 1 && p.States[i] == state.Undefined {
+			p.States[i] = state.Verified
+			p.Stakes[i] = sim.Dna(int64(20 + i))
+		}
+	}
+}
+
+// reorgHook is the BetweenBlocks hook of the diff-replay checks: at drawn points every replica abandons its last k
+// blocks (as the fork resolver does) and the history continues from there with different blocks.
+func reorgHook(t *rapid.T, reorgs, reorgAcrossUpdate *int) func(h *sim.History) {
+	return func(h *sim.History) {
+		if len(h.Blocks) < 4 {
+			return
+		}
+		w := h.W
+		// an abandoned EMPTY block that carried an identity diff (status switches are applied by empty blocks
+		// too) is the rare shape: take the opportunity in half of the cases
+		k := 0
+		for j := 1; j <= 3; j++ {
+			b := h.Blocks[len(h.Blocks)-j]
+			if b.IsEmpty() && !w.Replicas[0].Chain.GetIdentityDiff(b.Height()).Empty() {
+				evid.Count("a.empty_block_with_identity_diff_near_head")
+				if rapid.Bool().Draw(t, "reorgOverEmptyDiffBlock") {
+					// deeper than the block itself, so that the transactions that caused the diff are abandoned too
+					// and the replacement block at that height may have no diff at all
+					k = j + rapid.IntRange(0, 4).Draw(t, "deeperBy")
+					if k > len(h.Blocks)-1 {
+						k = len(h.Blocks) - 1
+					}
+				}
+				break
+			}
+		}
+		if k == 0 {
+			if rapid.IntRange(0, 6).Draw(t, "reorg") != 0 {
+				return
+			}
+			k = rapid.IntRange(1, 3).Draw(t, "reorgDepth")
+		}
+		target := w.Replicas[0].Head().Height() - uint64(k)
+		for _, r := range w.Replicas {
+			if !r.AppState.State.HasVersion(target) || !r.AppState.IdentityState.HasVersion(target) {
+				return
+			}
+		}
+		across := false
+		for _, b := range h.Blocks[len(h.Blocks)-k:] {
+			if d := w.Replicas[0].Chain.GetIdentityDiff(b.Height()); !d.Empty() {
+				across = true
+				if b.IsEmpty() {
+					evid.Count("a.reorg_over_empty_block_with_identity_diff")
+				}
+			}
+		}
+		for _, r := range w.Replicas {
+			if _, err := r.Chain.ResetTo(target); err != nil {
+				t.Fatalf("ResetTo(%d) on %s: %v", target, r.Name, err)
+			}
+		}
+		h.Blocks = h.Blocks[:len(h.Blocks)-k]
+		h.Note("reorg")
+		*reorgs++
+		if across {
+			*reorgAcrossUpdate++
+			h.Note("reorgAcrossIdentityDiff")
+		}
+	}
 }
 
 // ---- snapshots ----
